@@ -43,9 +43,14 @@ func vHnswVals(dim, which int) [][]float32 {
 			return [][]float32{{1}, {2}, {3}, {100}, {1}, {-2}}
 		case 1: // tight cluster then outlier
 			return [][]float32{{1}, {1.5}, {2}, {100}}
+		case 3:
+			return [][]float32{{0}, {1}, {2}, {3}}
 		default:
 			return [][]float32{{1}, {2}, {50}}
 		}
+	}
+	if which == 3 {
+		return [][]float32{{1, 1}, {2, 1}, {3, 1}, {4, 1}}
 	}
 	switch which {
 	case 0:
@@ -127,7 +132,7 @@ func (s *vHnswSys) Enabled() []vOp {
 			}
 		}
 	}
-	if s.nReadd < 1 && s.nRem > 0 && s.cfg.MaxN <= 2*s.cfg.M {
+	if s.nReadd < 1 && s.nRem > 0 && s.cfg.MaxN <= 2*s.cfg.M && s.cfg.Vals != 3 {
 		// update = remove + add: re-add an id that is currently removed (soft-deleted or flushed away)
 		rids := make([]int, 0)
 		for id := range s.m.ever {
@@ -522,6 +527,16 @@ func vC12Configs(tier string) []vHnswCfg {
 						}
 					}
 					out = append(out, c)
+					// narrow alphabet (collinear values), several removals and two flushes:
+					// e.g. removing all nearest earlier neighbours of a later vector, then flushing
+					if ef == 2*m && (th || m == 2) {
+						cn := vHnswCfg{Metric: metric, Dim: d, M: m, Ef: ef, MaxN: m + 2, MaxRem: m + 1, MaxFl: 2, MaxLvl: 0, Vals: 3}
+						if th {
+							cn.MaxN = 2 * m
+							cn.MaxLvl = 1
+						}
+						out = append(out, cn)
+					}
 				}
 				// reachability / non-emptiness regime: beyond 2M+1 nodes, reduced alphabet
 				if m == 2 {
